@@ -58,14 +58,26 @@ func c20gsub(r *rand.Rand, n int) (*gtab.Info, []c20rule) {
 			lt.Meta.LookupType = 1
 			cov := map[glyph.ID]bool{}
 			var mx glyph.ID
+			mn := glyph.ID(n)
 			for k := 1 + r.IntN(3); k > 0; k-- {
 				g := gid()
 				cov[g] = true
 				mx = max(mx, g)
+				mn = min(mn, g)
 			}
 			delta := glyph.ID(r.IntN(n - int(mx)))
+			if mn > 1 && r.IntN(2) == 0 {
+				// substitutes with lower glyph ids: the delta is negative, stored
+				// modulo 65536 (-3 = 0xFFFD)
+				delta = -glyph.ID(1 + r.IntN(int(mn)-1))
+			}
 			lt.Subtables = []gtab.Subtable{&gtab.Gsub1_1{Cov: cov, Delta: delta}}
+			var covKeys []glyph.ID
 			for g := range cov {
+				covKeys = append(covKeys, g)
+			}
+			sort.Slice(covKeys, func(i, j int) bool { return covKeys[i] < covKeys[j] })
+			for _, g := range covKeys {
 				rules = append(rules, c20rule{[]glyph.ID{g}, g + delta})
 			}
 		case 1: // 1.2
